@@ -439,14 +439,18 @@ static void do_prim(const J& g, W& w) {
         for (auto& f : track(r)) bnd.push_back(f);
         if (ir > 0) for (auto& f : track(ir)) bnd.push_back(f);
     } else if (p == "fillet") {
-        double a = (double)g["side"].i(), r = (double)g["r"].i();
-        poly = rectangle(Vec2{0, 0}, Vec2{a, a}, tag);
+        // rectangle a x b with all four corners rounded; a radius that does not fit is clamped to
+        // half the shorter side (the arcs of neighbouring corners then meet)
+        double a = (double)g["side"].i(), b = g.has("side2") ? (double)g["side2"].i() : a;
+        double r0 = (double)g["r"].i();
+        poly = rectangle(Vec2{0, 0}, Vec2{a, b}, tag);
         Array<double> radii = {};
-        for (int i = 0; i < 4; i++) radii.append(r);
+        for (int i = 0; i < 4; i++) radii.append(r0);
         poly.fillet(radii, tol);
         radii.clear();
-        scale = a;
-        Vec2 cs[4] = {Vec2{r, r}, Vec2{a - r, r}, Vec2{a - r, a - r}, Vec2{r, a - r}};
+        scale = fmax(a, b);
+        double r = fmin(r0, 0.5 * fmin(a, b));
+        Vec2 cs[4] = {Vec2{r, r}, Vec2{a - r, r}, Vec2{a - r, b - r}, Vec2{r, b - r}};
         double st[4] = {M_PI, 1.5 * M_PI, 0, 0.5 * M_PI};
         for (int i = 0; i < 4; i++) {
             Vec2 cc = cs[i];
@@ -454,9 +458,9 @@ static void do_prim(const J& g, W& w) {
             bnd.push_back([=](double u) { double ang = s0 + 0.5 * M_PI * u; return cc + Vec2{r * cos(ang), r * sin(ang)}; });
         }
         bnd.push_back([=](double u) { return Vec2{r + (a - 2 * r) * u, 0}; });
-        bnd.push_back([=](double u) { return Vec2{a, r + (a - 2 * r) * u}; });
-        bnd.push_back([=](double u) { return Vec2{r + (a - 2 * r) * u, a}; });
-        bnd.push_back([=](double u) { return Vec2{0, r + (a - 2 * r) * u}; });
+        bnd.push_back([=](double u) { return Vec2{a, r + (b - 2 * r) * u}; });
+        bnd.push_back([=](double u) { return Vec2{r + (a - 2 * r) * u, b}; });
+        bnd.push_back([=](double u) { return Vec2{0, r + (b - 2 * r) * u}; });
     }
     bool ok = true, fin = true;
     for (uint64_t i = 0; i < poly.point_array.count; i++)
